@@ -40,11 +40,37 @@ func main() {
 	deadline = time.Duration(*dl) * time.Second
 	seed := vh.SeedFromEnv()
 	r := vh.NewRng(seed)
-	sum := vh.NewSummary("unit: codec (GoRpc x 5 formats, MsgpackSpecRpc) x ReaderBufferSize x WriterBufferSize in {0,1,7,64,4096} x request/response x 1..4 frames x chunk schedule (coalesced, single bytes, random, one frame plus the head of the next, mixed) x whole/cut stream; non-trivial = more than one frame, a fragmenting schedule or a cut; distinct by all of these. chunk: three short frames per codec x rbs in {0,1,64} x direction under every schedule [a, b, rest] (direct oracle; distinct by codec, rbs, direction). depth: 20..80 (default MaxDepth: >1030) messages written back to back and read by one codec under MaxDepth in {default,2,3,4,5,8}, first failing message compared with the model (distinct by codec, MaxDepth, direction, limit reached). discard: 3..8 messages of which some have their body read with a nil destination (unknown method/service, error reply, stale reply) and shapes that are no interface{} value (maps keyed by arrays/structs), first failing message vs the model, typed bodies re-checked after the last message (distinct by codec, rbs, direction, counts). All decoded strings carry json escapes and are re-checked after later messages were read. longlived: one real net/rpc connection per codec x transport x rbs with MaxDepth 8 (and the default with 1100 calls), several hundred sequential then concurrent calls, every reply and server error matched. rpc: the same codecs (plus GoRpc/binc with AsSymbols=1, whose symbol tables span frames) and buffer grid x transport (net.Pipe, fragmenting/coalescing pipe in 4 modes, TCP loopback, the documented bufio-wrapped connection) x N in 1..64 concurrent calls (Echo struct, Add, Str, Fail) + Close protocol; distinct by (codec, transport, rbs, wbs, N). close: Close unblocks a pending header read, per codec x transport")
+	sum := vh.NewSummary("unit: codec (GoRpc x 5 formats, MsgpackSpecRpc) x ReaderBufferSize x WriterBufferSize in {0,1,7,64,4096} x request/response x 1..4 frames x chunk schedule (coalesced, single bytes, random, one frame plus the head of the next, mixed) x whole/cut stream; non-trivial = more than one frame, a fragmenting schedule or a cut; distinct by all of these. chunk: three short frames per codec x rbs in {0,1,64} x direction under every schedule [a, b, rest] (direct oracle; distinct by codec, rbs, direction). depth: 20..80 (default MaxDepth: >1030) messages written back to back and read by one codec under MaxDepth in {default,2,3,4,5,8}, first failing message compared with the model (distinct by codec, MaxDepth, direction, limit reached). discard: 3..8 messages of which some have their body read with a nil destination (unknown method/service, error reply, stale reply) and shapes that are no interface{} value (maps keyed by arrays/structs), first failing message vs the model, typed bodies re-checked after the last message (distinct by codec, rbs, direction, counts). All decoded strings carry json escapes and are re-checked after later messages were read. raw/relay: handles with Raw and ZeroCopy in {true,false}: messages with codec.Raw bodies read back and compared after the last message (raw), and a pass-through service Relay(Raw,*Raw) whose handlers answer only after all N in {2,8,24} concurrent requests arrived, every caller gets its own bytes back (relay; codec x {pipe, coalescing pipe, TCP} x rbs {0,64}). longlived: one real net/rpc connection per codec x transport x rbs with MaxDepth 8 (and the default with 1100 calls), several hundred sequential then concurrent calls, every reply and server error matched. rpc: the same codecs (plus GoRpc/binc with AsSymbols=1, whose symbol tables span frames) and buffer grid x transport (net.Pipe, fragmenting/coalescing pipe in 4 modes, TCP loopback, the documented bufio-wrapped connection) x N in 1..64 concurrent calls (Echo struct, Add, Str, Fail) + Close protocol; distinct by (codec, transport, rbs, wbs, N). close: Close unblocks a pending header read, per codec x transport")
 	unitStream(r.Fork(), *nUnit, *cases, sum)
 	chunkStream(r.Fork(), *chunkStep, sum)
 	depthUnit(r.Fork(), *nDepth, *cases, sum)
 	discardUnit(r.Fork(), *nDiscard, *cases, sum)
+	rawUnit(r.Fork(), sum)
+	{
+		rl := r.Fork()
+		for _, c := range codecNames {
+			for _, t := range []string{"pipe", "frag-coalesce", "tcp"} {
+				for _, rbs := range []int{0, 64} {
+					for _, zc := range []bool{true, false} {
+						if atomic.LoadInt32(&hungRuns) >= 6 {
+							continue
+						}
+						cfg := rpcConfig{codec: c, transport: t, rbs: rbs, wbs: rbs, n: []int{2, 8, 24}[rl.Intn(3)], seed: rl.U64() >> 1}
+						fl, d := runRelay(cfg, zc)
+						for _, f := range fl {
+							sum.FailC(f.Stream, f.Class, f.What, f.Case)
+							if strings.HasPrefix(f.Class, "hang") {
+								atomic.AddInt32(&hungRuns, 1)
+							}
+						}
+						sum.Count("relay."+c, fmt.Sprintf("relay/%s/%s/r%d/%v/n%d", c, t, rbs, zc, cfg.n))
+						sum.Evaluations += d
+						sum.Dist["relay.calls"] += d
+					}
+				}
+			}
+		}
+	}
 
 	// ---- long-lived connections ----
 	{
